@@ -11,6 +11,7 @@ CONSTANTS
  MaxDevStop = 1
  MaxFail = 1
  MaxSteps = 55
+ LiveMC = FALSE
  MaxNoop = 4
  OutOfOrderRb = FALSE
 INIT MCInit
